@@ -62,7 +62,13 @@ func TestVerifEchoMiddleware(t *testing.T) {
 			var cur []*flags
 			e := echo.New()
 			e.HideBanner = true
-			e.Use(func(next echo.HandlerFunc) echo.HandlerFunc {
+			// with an extractor and a fallback the middlewares are installed with Pre (they run before the router, the usual
+			// set-up when the resource name does not come from the route), otherwise with Use
+			install := e.Use
+			if ext && fb {
+				install = e.Pre
+			}
+			install(func(next echo.HandlerFunc) echo.HandlerFunc {
 				return func(c echo.Context) (err error) {
 					f := cur[len(cur)-1]
 					defer func() {
@@ -76,7 +82,7 @@ func TestVerifEchoMiddleware(t *testing.T) {
 					return next(c)
 				}
 			})
-			e.Use(SentinelMiddleware(opts...)) // ONE middleware value for all requests of the combination
+			install(SentinelMiddleware(opts...)) // ONE middleware value for all requests of the combination
 			e.GET("/ping/:id", func(c echo.Context) error {
 				if err := hs.call(); err != nil {
 					return c.String(http.StatusBadGateway, "err")
